@@ -129,32 +129,58 @@ func (w *World) Discharge(fc *FnCtx, header string, scratch string, timeoutS int
 		return nil
 	}
 	base := filepath.Join(scratch, sanitizeFile(fc.key))
-	// phase 1: incremental sessions (the obligation list is cut into chunks that run in parallel; each chunk replays
-	// the log prefix it needs)
-	nchunks := 1
-	if len(todo) > 40 {
-		nchunks = (len(todo) + 39) / 40
-		if nchunks > 12 {
-			nchunks = 12
+	// phase 1: incremental sessions. Obligations without a slice are cut into chunks that run in parallel, each replaying
+	// the log prefix it needs; obligations proved per incoming edge (Slice != nil) get one session per edge which replays only
+	// the log entries of the blocks that can reach that edge.
+	type chunk struct {
+		obls []*Obligation
+	}
+	var chunks []chunk
+	var plain []*Obligation
+	bySlice := map[string][]*Obligation{}
+	var sliceKeys []string
+	for _, o := range todo {
+		if o.Slice == nil {
+			plain = append(plain, o)
+			continue
+		}
+		if _, ok := bySlice[o.SliceKey]; !ok {
+			sliceKeys = append(sliceKeys, o.SliceKey)
+		}
+		bySlice[o.SliceKey] = append(bySlice[o.SliceKey], o)
+	}
+	if len(plain) > 0 {
+		nchunks := 1
+		if len(plain) > 40 {
+			nchunks = (len(plain) + 39) / 40
+			if nchunks > 12 {
+				nchunks = 12
+			}
+		}
+		per := (len(plain) + nchunks - 1) / nchunks
+		for c := 0; c < nchunks; c++ {
+			lo, hi := c*per, (c+1)*per
+			if hi > len(plain) {
+				hi = len(plain)
+			}
+			if lo < hi {
+				chunks = append(chunks, chunk{plain[lo:hi]})
+			}
 		}
 	}
-	per := (len(todo) + nchunks - 1) / nchunks
+	for _, k := range sliceKeys {
+		chunks = append(chunks, chunk{bySlice[k]})
+	}
 	type chunkRes struct {
 		answers []string
 		err     error
 		dt      float64
 	}
-	results := make([]chunkRes, nchunks)
+	results := make([]chunkRes, len(chunks))
 	var cwg sync.WaitGroup
-	for c := 0; c < nchunks; c++ {
-		lo, hi := c*per, (c+1)*per
-		if hi > len(todo) {
-			hi = len(todo)
-		}
-		if lo >= hi {
-			continue
-		}
-		c, lo, hi := c, lo, hi
+	for c := range chunks {
+		c := c
+		obls := chunks[c].obls
 		cwg.Add(1)
 		go func() {
 			defer cwg.Done()
@@ -165,8 +191,11 @@ func (w *World) Discharge(fc *FnCtx, header string, scratch string, timeoutS int
 			fmt.Fprintf(&sb, "(set-option :timeout %d)\n", phase1TimeoutMs)
 			sb.WriteString(header)
 			li := 0
-			for _, o := range todo[lo:hi] {
+			for _, o := range obls {
 				for ; li < o.LogLen; li++ {
+					if o.Slice != nil && li < len(fc.logBlk) && fc.logBlk[li] >= 0 && !o.Slice[fc.logBlk[li]] {
+						continue
+					}
 					sb.WriteString(fc.log[li])
 					sb.WriteString("\n")
 				}
@@ -178,7 +207,7 @@ func (w *World) Discharge(fc *FnCtx, header string, scratch string, timeoutS int
 				return
 			}
 			t0 := time.Now()
-			cx, cancel := context.WithTimeout(context.Background(), time.Duration((phase1TimeoutMs/1000+1)*(hi-lo)+30)*time.Second)
+			cx, cancel := context.WithTimeout(context.Background(), time.Duration((phase1TimeoutMs/1000+1)*len(obls)+30)*time.Second)
 			cmd := exec.CommandContext(cx, "z3-new", f1)
 			var out bytes.Buffer
 			cmd.Stdout = &out
@@ -199,25 +228,21 @@ func (w *World) Discharge(fc *FnCtx, header string, scratch string, timeoutS int
 	}
 	cwg.Wait()
 	var rest []*Obligation
-	for c := 0; c < nchunks; c++ {
+	for c := range chunks {
 		if results[c].err != nil {
 			return results[c].err
 		}
-		lo, hi := c*per, (c+1)*per
-		if hi > len(todo) {
-			hi = len(todo)
-		}
-		for i := lo; i < hi; i++ {
-			o := todo[i]
+		obls := chunks[c].obls
+		ans := results[c].answers
+		for i, o := range obls {
 			o.SMTSize = len(header)
-			ans := results[c].answers
-			if i-lo < len(ans) && ans[i-lo] == "unsat" {
+			if i < len(ans) && ans[i] == "unsat" {
 				o.Status = "unsat"
 				o.Solver = "z3-new(inc)"
-				o.TimeS = results[c].dt / float64(hi-lo)
+				o.TimeS = results[c].dt / float64(len(obls))
 			} else {
-				if i-lo < len(ans) {
-					o.Status = ans[i-lo]
+				if i < len(ans) {
+					o.Status = ans[i]
 				} else {
 					o.Status = "unknown"
 				}
@@ -240,6 +265,9 @@ func (w *World) Discharge(fc *FnCtx, header string, scratch string, timeoutS int
 			var body strings.Builder
 			body.WriteString(header)
 			for i := 0; i < o.LogLen; i++ {
+				if o.Slice != nil && i < len(fc.logBlk) && fc.logBlk[i] >= 0 && !o.Slice[fc.logBlk[i]] {
+					continue
+				}
 				body.WriteString(fc.log[i])
 				body.WriteString("\n")
 			}
